@@ -104,6 +104,9 @@ def corruptions(root, rng, limit):
             if others and d["kids"]:
                 tgt = rng.choice(others)
                 variant("wrong-firstbucket", lambda c, b, i=i, tgt=tgt: b[i].__setitem__("first", tgt))
+            if d["kids"] and d["first"] is not None:
+                # firstbucket is a stale COPY of the leftmost leaf (same keys, same next, another object): identity 20000 + id
+                variant("firstbucket-copy", lambda c, b, i=i: b[i].__setitem__("first", 20000 + b[i]["first"]))
             for k in range(1, len(d["kids"])):
                 variant("separator-too-high", lambda c, b, i=i, k=k: b[i]["kids"][k].__setitem__(0, b[i]["kids"][k][0] + 1000))
                 variant("separator-too-low", lambda c, b, i=i, k=k: b[i]["kids"][k].__setitem__(0, b[i]["kids"][k][0] - 1000))
@@ -199,7 +202,12 @@ def install(env, root):
             if i:
                 data.append(env.k(s))
             data.append(mk(c))
-        t.__setstate__((tuple(data), byid[d["first"]]))
+        first = d["first"]
+        if first is not None and first >= 20000 and first not in byid:
+            twin = leafcls()
+            twin.__setstate__(byid[first - 20000].__getstate__())
+            byid[first] = twin
+        t.__setstate__((tuple(data), byid[first]))
         return t
     return mk(root)
 
